@@ -193,14 +193,11 @@ def run_shard(spec, res):
         if dl.over():
             break
         res.evaluations += 1
-        from kverif.kharness import NonFiniteData
-        try:
-            if i % 5 == 4:
-                run_world(case_rng(spec['seed'], ID, i, 'w'), res, i)
-            else:
-                run_single(case_rng(spec['seed'], ID, i), res, i)
-        except NonFiniteData:
-            res.skip('torch produced non-finite data for finite inputs')
+        from kverif.kharness import call_case
+        if i % 5 == 4:
+            call_case(res, run_world, case_rng(spec['seed'], ID, i, 'w'), res, i, case=dict(idx=i, kind='world'))
+        else:
+            call_case(res, run_single, case_rng(spec['seed'], ID, i), res, i, case=dict(idx=i, kind='single'))
 
 
 def replay(case, res):
